@@ -167,6 +167,9 @@ def common_obligations(ctx, repo, pid):
         from .rules.alias import check_aliases, DEFAULT_SCOPE_PREFIXES
         scope = sorted(n for n in repo.modules if any(n.startswith(p) for p in DEFAULT_SCOPE_PREFIXES))
         check_aliases(ctx, repo, pid, scope, report_modules=mods)
+        # PARAM rule: an argument whose values are ignored (only its size / presence is read)
+        from .rules.params import check_params
+        check_params(ctx, repo, pid, scope, report_modules=mods)
 
 
 def run_sentinels(ctx: Ctx, pid: str):
